@@ -44,6 +44,7 @@ fn main() {
 
 fn run_c12(tier: &str, root: u64, workers: usize, scale: u64) -> i32 {
     let (worlds, max_plans) = if tier == "thorough" { (12_000 * scale, 60usize) } else { (320 * scale, 28usize) };
+    let worlds = util::runs_override(worlds);
     let start = Instant::now();
     let results = util::run_pool(worlds, workers, |i| {
         let mut st = c12::Stats::default();
@@ -57,6 +58,7 @@ fn run_c12(tier: &str, root: u64, workers: usize, scale: u64) -> i32 {
         }
     });
     let wall = start.elapsed().as_secs_f64();
+    util::dump_hashes("sim-cli-c12", &results.iter().map(|(st, _)| st.base_identity).collect::<Vec<_>>());
     let mut total = c12::Stats::default();
     let mut violations: Vec<Violation> = Vec::new();
     let mut tuples = std::collections::HashSet::new();
